@@ -1542,15 +1542,15 @@ func (l *lexer) linebreak() bool {
 	for {
 		r, err := l.read()
 		if err != nil {
-			l.comment()
+			l.comment(hash)
 			return false
 		}
 
 		switch r {
 		case '\n':
 			// <newline>
+			l.comment(hash)
 			hash = false
-			l.comment()
 			l.mark(0)
 		case '#':
 			// comment
@@ -1585,12 +1585,12 @@ func (l *lexer) skipComment() bool {
 	for {
 		r, err := l.read()
 		if err != nil {
-			l.comment()
+			l.comment(true)
 			return false
 		}
 		if r == '\n' {
 			l.unread()
-			l.comment()
+			l.comment(true)
 			l.mark(0)
 			return true
 		}
@@ -1598,8 +1598,8 @@ func (l *lexer) skipComment() bool {
 	}
 }
 
-func (l *lexer) comment() {
-	if l.b.Len() != 0 {
+func (l *lexer) comment(hash bool) {
+	if hash || l.b.Len() != 0 {
 		l.comments = append(l.comments, &ast.Comment{
 			Hash: l.pos,
 			Text: l.b.String(),
